@@ -20,6 +20,7 @@ import write_indel_files as wif            # /repo/sv is on sys.path (runner)
 from src.diagnostic.benchmark_alignment import BenchmarkAlignedPair, BenchmarkAlignmentPosition
 
 TYPES = ["insertion", "deletion"]
+QUERY_IDS = [213, 13, 3, 21, 1]      # distinct ids whose decimal texts contain one another (a text-based membership test must not lose one)
 
 
 def make_calls(E, n, cfg):
@@ -32,7 +33,7 @@ def make_calls(E, n, cfg):
         length = E.real(f"length{i}")
         E.assume(chrom >= 1)
         E.assume(start <= stop)
-        calls.append([typ, chrom, start, stop, 101 + i, 5 * i, 5 * i + 3, length])
+        calls.append([typ, chrom, start, stop, QUERY_IDS[i], 5 * i, 5 * i + 3, length])
     return calls
 
 
